@@ -6,7 +6,7 @@ import tempfile
 CVC5 = "/usr/bin/cvc5"
 
 
-def cvc5_check(smt2_text, timeout_s=20, strings=True, produce_model=False):
+def cvc5_check(smt2_text, timeout_s=60, strings=True, produce_model=False):
     """Returns (verdict, info) with verdict in {'sat','unsat','unknown'}."""
     if not os.path.exists(CVC5):
         return "unknown", "cvc5 binary missing"
